@@ -17,7 +17,7 @@ from qv import gen
 from qv.monitor import HookSet, digest
 
 ID = "C20"
-RULE = ("every schedule of length 0..4 over a 26-item alphabet (4 kinds x indices {-1,0,1,2} + 10 malformed items: arity 1/3, "
+RULE = ("every schedule of length 0..4 over a 28-item alphabet (4 kinds x indices {-1,0,1,2} + 12 malformed items incl. two integral-float indices 0.0 / 1.0 that compare equal to well-formed items: arity 1/3, "
         "list item, non-str / unknown / capitalised kind, float / bool / str / None index) x object-list configurations "
         "(all lists of length 2; empty gate+mprocess lists; None placeholders; thorough: 6 more, and length 5 over the 16 "
         "well-typed items for 4 configurations), non-sequence schedules, non-list schedule containers, multi-schedule lists, every setter "
@@ -26,7 +26,7 @@ RULE = ("every schedule of length 0..4 over a 26-item alphabet (4 kinds x indice
         "tomography classes; a case is distinct by (call site, schedule list, list sizes) and non-trivial when it is "
         "accepted by the specification or has exactly one defect class (single-fault neighbours of the language)")
 EXHAUSTIVE = {"quick": True, "thorough": True}
-EXHAUSTIVE_SCOPE = ("Experiment constructor: all 475,255 schedules of length 0..4 over the 26-item alphabet x 3 list "
+EXHAUSTIVE_SCOPE = ("Experiment constructor: all 637,421 schedules of length 0..4 over the 28-item alphabet x 3 list "
                     "configurations (quick) / x 9 configurations plus all 16^5 length-5 schedules over the well-typed items x 4 "
                     "configurations (thorough); tomography constructors: all 69,905 single custom schedules of length 0..4 over "
                     "the 16 well-typed items per class.  Setter walks, multi-schedule lists and container classes are "
@@ -454,8 +454,11 @@ class Mon:
 
 WELL_TYPED = [(k, i) for k in KINDS for i in (-1, 0, 1, 2)]
 MALFORMED = [("state",), ("povm", 0, 0), ["gate", 0], (1, 0), ("circuit", 0), ("State", 0),
-             ("gate", 0.5), ("povm", True), ("state", "0"), ("mprocess", None)]
-# 26 items: 16 well-typed + arity 1 / 3, list item, non-str / unknown / capitalised kind, float / bool / str / None index
+             ("gate", 0.5), ("povm", True), ("state", "0"), ("mprocess", None),
+             # integral floats: equal (==, hash) to a well-formed in-range item, yet not integer indices
+             ("gate", 0.0), ("povm", 1.0)]
+# 28 items: 16 well-typed + arity 1 / 3, list item, non-str / unknown / capitalised kind, float / bool / str / None index,
+# two integral-float indices
 ALPHABET = WELL_TYPED + MALFORMED
 
 # configurations: kind -> list of fixture indices / None placeholders; "omit" = argument not passed
